@@ -6,7 +6,7 @@ from .. import tables
 from ..callgraph import callgraph, reachable_from
 from ..canon import canon, cexpr
 from ..pm import dotted, src
-from ..q import FA, call_name, walk_no_nested
+from ..q import FA, call_name, guard_facts, literal_tests, walk_no_nested
 from ..rules import api
 
 
@@ -119,7 +119,7 @@ def run(ctx):
     cfg = ctx.fn(tables.FP + ".configure_latent_prior")
     accepted = compared_literals(cfg.node, "self.latent_prior")
     ctx.require(len(accepted) >= 4, "configure_latent_prior: accepted latent prior names not found")
-    ctx.ob("R-REG", "C20.3", cfg, "unknown latent prior is rejected (final else raises)", _chain_ends_in_raise(cfg.node, "self.latent_prior"), f"accepted: {sorted(accepted)}")
+    ctx.ob("R-REG", "C20.3", cfg, "unknown latent prior is rejected (final else raises)", _chain_ends_in_raise(cfg, "self.latent_prior"), f"accepted: {sorted(accepted)}")
     fpc = prog.cls(tables.FP)
     for c in [fpc] + prog.subclasses(fpc):
         for m in c.methods.values():
@@ -171,13 +171,13 @@ def run(ctx):
     handlers = {"quantile": "determine_threshold_quantile", "entropy": "determine_threshold_entropy"}
     for name, meth in handlers.items():
         ctx.ob("R-REG", "C20.3", dl, f"threshold method `{name}` dispatches to an existing method", name in lits and prog.find_method(ins, meth) is not None, f"handled literals {sorted(lits)}")
-    ctx.ob("R-REG", "C20.3", dl, "unknown threshold method is rejected", _chain_ends_in_raise(dl.node, "method"), "")
+    ctx.ob("R-REG", "C20.3", dl, "unknown threshold method is rejected", _chain_ends_in_raise(dl, "method"), "")
 
     # 8. posterior sampling methods ---------------------------------------------
     dp = ctx.fn("nessai.posterior:draw_posterior_samples")
     lits = compared_literals(dp.node, "method")
     ctx.ob("R-REG", "C20.3", dp, "posterior sampling methods {rejection_sampling, multinomial_resampling, importance_sampling} handled, others rejected",
-           {"rejection_sampling", "multinomial_resampling", "importance_sampling"} <= lits and _chain_ends_in_raise(dp.node, "method"), f"{sorted(lits)}")
+           {"rejection_sampling", "multinomial_resampling", "importance_sampling"} <= lits and _chain_ends_in_raise(dp, "method"), f"{sorted(lits)}")
     fs = prog.cls(tables.FS)
     for m in fs.methods.values():
         for n in walk_no_nested(m.node):
@@ -198,13 +198,21 @@ def run(ctx):
     ctx.floor("C20.5", 6)
 
 
-def _chain_ends_in_raise(fnode, subject):
-    """An if/elif chain comparing `subject` ends in an else that raises."""
-    for n in walk_no_nested(fnode):
-        if isinstance(n, ast.If) and compared_literals(n.test, subject):
-            cur = n
-            while len(cur.orelse) == 1 and isinstance(cur.orelse[0], ast.If):
-                cur = cur.orelse[0]
-            if cur.orelse and any(isinstance(x, ast.Raise) for x in cur.orelse):
-                return True
-    return False
+def _chain_ends_in_raise(fi, subject):
+    """Values of `subject` that no branch handles are rejected: some `raise` runs under guards that
+    only say what `subject` is *not*, and they exclude every literal a branch tests for positively
+    (shape of the chain - elif, nested else, early returns, swapped arms - is irrelevant)."""
+    fa = FA(fi)
+    is_sel = lambda e: src(e) == subject
+    handled = set()
+    rejecting = []
+    for n in fa.nodes():
+        facts = guard_facts(fa, n.id)
+        pos, neg = literal_tests(facts, is_sel)
+        for e, t in facts:  # multi-valued membership tests handle all their values
+            if isinstance(e, ast.Compare) and len(e.ops) == 1 and isinstance(e.ops[0], (ast.In, ast.NotIn)) and is_sel(e.left) and isinstance(e.ops[0], ast.In) == t:
+                pos |= {c.value for c in ast.walk(e.comparators[0]) if isinstance(c, ast.Constant)}
+        handled |= pos
+        if n.kind == "stmt" and isinstance(n.ast, ast.Raise) and not pos and neg:
+            rejecting.append(neg)
+    return any(neg >= handled for neg in rejecting)
